@@ -149,6 +149,20 @@ theorem credCheck_iff (o : Oracle) (d g : Bytes) : credCheck o d g = true ↔ Ma
           · simp [hd0]
           · simp [hd]
 
+/-- for a non-empty configured credential (config validation rejects empty user names) "matches" has
+no accept-anything case: it is the hash comparison or byte equality.  For the empty credential it
+accepts every supplied value — for user names too, not only for passwords (mirrored quirk). -/
+theorem matches_nonempty (o : Oracle) (d g : Bytes) (hd : d ≠ []) :
+    Matches o d g ↔
+      ((∃ h, d = sha256Prefix ++ h ∧ h = o.sha256b64 g) ∨
+       (∃ e, d = argon2Prefix ++ e ∧ o.argon2ok g e = true) ∨
+       (¬ sha256Prefix <+: d ∧ ¬ argon2Prefix <+: d ∧ d = g)) := by
+  unfold Matches
+  simp [hd]
+
+theorem matches_empty (o : Oracle) (g : Bytes) : Matches o [] g := by
+  refine Or.inr (Or.inr ⟨?_, ?_, Or.inl rfl⟩) <;> simp [sha256Prefix, argon2Prefix, asc]
+
 theorem ipsContain_iff (ns : List IPNet) (ip : Bytes) :
     ipsContain ns ip = true ↔ ∃ n ∈ ns, ipnetContains n ip = true := by
   induction ns with
